@@ -1,6 +1,9 @@
 package props
 
 import (
+	"regexp"
+	"strings"
+
 	"golang.org/x/tools/go/ssa"
 
 	"obsa/eng"
@@ -120,6 +123,131 @@ func runC19(c *eng.Ctx, thorough bool) {
 			})
 			fe := eng.CondEdges(clo, `^φerr\{.*\} == nil$`, false)
 			c.CleanupOnEdges(clo, "lease creation or LazyRevoke failed", fe, "retResp = nil", errNil)
+		}
+	}
+
+	// ---- C19.5 the tombstone is honoured by readers: an exhausted token (NumUses < 0) is not looked up again
+	tokenLiveness(c, "C19.5")
+
+	// ---- C19.2b the verdict and the last-use test look at UseToken's result, not at the copy made before it
+	if f := c.Fn("vault.(*Core).handleRequest"); f != nil {
+		c.Clause("R5", "C19.2")
+		uses := eng.Calls(f, `vault\.\(\*TokenStore\)\.UseToken$`)
+		n := 0
+		for _, pat := range []string{`^te == nil$`, `^te\.NumUses == -1$`} {
+			for _, e := range append(eng.CondEdges(f, pat, true), eng.CondEdges(f, pat, false)...) {
+				iff := eng.IfOf(e.From)
+				if iff == nil {
+					continue
+				}
+				// only tests after the UseToken call
+				after := false
+				for _, u := range uses {
+					if eng.Reach(eng.Query{Fn: f, StartAfter: u, Target: func(in ssa.Instruction) bool { return in == ssa.Instruction(iff) }}) != nil {
+						after = true
+					}
+				}
+				if !after || e.Succ != 0 {
+					continue
+				}
+				// the alloc of the captured variable te and what may have been stored into it at this point
+				var te *ssa.Alloc
+				var find func(v ssa.Value, d int)
+				find = func(v ssa.Value, d int) {
+					if v == nil || d > 6 || te != nil {
+						return
+					}
+					switch x := v.(type) {
+					case *ssa.Alloc:
+						if x.Comment == "te" {
+							te = x
+						}
+					case ssa.Instruction:
+						for _, op := range x.Operands(nil) {
+							if *op != nil {
+								find(*op, d+1)
+							}
+						}
+					}
+				}
+				find(iff.Cond, 0)
+				site := "test [" + pat + "] reads UseToken's result"
+				if te == nil {
+					c.Undecided(f, site, iff.Cond.Pos(), "the token entry variable of the test was not found")
+					continue
+				}
+				vals, escaped := eng.ReachingStores(te, iff)
+				ok := len(vals) > 0
+				var from []string
+				for _, v := range vals {
+					from = append(from, eng.Expr(v))
+					ex, isEx := v.(*ssa.Extract)
+					if !isEx || ex.Index != 0 {
+						ok = false
+						continue
+					}
+					cl, isCall := ex.Tuple.(*ssa.Call)
+					if !isCall || !regexp.MustCompile(`vault\.\(\*TokenStore\)\.UseToken$`).MatchString(eng.CalleeName(&cl.Call)) {
+						ok = false
+					}
+				}
+				_ = escaped
+				n++
+				if ok {
+					c.OK(f, site, iff.Cond.Pos(), "te = "+strings.Join(from, " | "))
+				} else {
+					c.Violation(f, site, iff.Cond.Pos(), "after UseToken the test still reads "+strings.Join(from, " | ")+": the entry copied before the decrement (the last use and a concurrent revocation go unnoticed)", nil)
+				}
+			}
+		}
+		c.Floor(f, "tests of the used token entry", n, 2)
+	}
+
+	// ---- C19.3b the revocation is issued whenever the lease could be created
+	if clo := c.P.Func("vault.(*Core).handleRequest$1"); clo != nil {
+		mk := eng.Calls(clo, `vault\.\(\*ExpirationManager\)\.CreateOrFetchRevocationLeaseByToken$`)
+		lz := eng.Calls(clo, `vault\.\(\*ExpirationManager\)\.LazyRevoke$`)
+		if len(mk) > 0 && len(lz) > 0 {
+			c.Clause("R4", "C19.3")
+			for _, m := range mk {
+				c.CleanupOnEdges(clo, "revocation lease created", eng.CallOKEdgesDirect(m), "LazyRevoke", eng.AsInstrs(lz))
+			}
+			c.Clause("R5", "C19.3")
+			for _, l := range lz {
+				a := l.Common().Args
+				c.Prov(clo, "lease revoked on the last use", l, a[len(a)-1], `^call:vault\.\(\*ExpirationManager\)\.CreateOrFetchRevocationLeaseByToken#0$`)
+			}
+		}
+	}
+
+	// ---- C19.6 a standby never serves a use-limited token locally (it cannot persist the decrement)
+	if f := c.Fn("vault.(*Core).handleCancelableRequest"); f != nil {
+		c.Clause("R2", "C19.6")
+		var sinks []ssa.Instruction
+		sinks = append(sinks, eng.AsInstrs(eng.Calls(f, `vault\.\(\*Core\)\.(handleRequest|handleLoginRequest)$`))...)
+		if c.Floor(f, "request handlers called", len(sinks), 2) {
+			g := eng.Or(eng.G(f, `^0 < req\.ClientTokenRemainingUses$`, false), eng.GD(f, `^\(\*sync/atomic\.Bool\)\.Load\(c\.standby\)$`, false))
+			c.Cut(f, "request handled locally", sinks, g, nil)
+		}
+		// what the test looks at is the token's use count
+		c.Clause("R6", "C19.6")
+		if fv := c.P.Field("logical.Request.ClientTokenRemainingUses"); fv == nil {
+			c.Unresolved("logical.Request.ClientTokenRemainingUses")
+		} else {
+			nw := 0
+			for _, w := range c.P.FieldWriters(fv) {
+				if !eng.InPkg(w.Fn, "vault") {
+					continue // the router zeroes and restores it around the backend call (C12/C11 do not depend on it)
+				}
+				nw++
+				s := eng.Expr(w.Store.Val)
+				if strings.HasSuffix(s, ".NumUses") {
+					c.OK(w.Fn, "writer{Request.ClientTokenRemainingUses}", w.Store.Pos(), s)
+				} else {
+					c.Violation(w.Fn, "writer{Request.ClientTokenRemainingUses}", w.Store.Pos(), "ClientTokenRemainingUses is set to "+s+", not to the token entry's NumUses", nil)
+				}
+			}
+			c.Floor(nil, "writers of ClientTokenRemainingUses in package vault", nw, 2)
 		}
 	}
 
